@@ -268,12 +268,13 @@ fn big_tree(strays: usize, incomplete: usize) -> Tree {
         gm::PkgDir { name, files, extra: vec![], missing_mask: mask }
     };
     let mut dirs = vec![mk("first-1.0".into(), 0), mk("middle-pkg-2.0nb1".into(), 0), mk("zlast-3".into(), 0)];
-    // the size ladder for metadata files: +CONTENTS of 2^24 bytes plus a little,
+    // the size ladder for metadata files: +CONTENTS of 2^27 bytes plus a little,
     // +DESC of 2^22, +BUILD_INFO of 2^20 (a cap on what read_metadata returns
     // shows one rung above it); only with the full-size tree
     if strays >= 10_000 {
         let line = "lib/libexample.so.1.2.3\n";
-        dirs[1].files[MANDATORY[1]] = Some(line.repeat((1 << 24) / line.len() + 2));
+        // (2^27 bytes and a little for +CONTENTS: past a 128 MiB guard)
+        dirs[1].files[MANDATORY[1]] = Some(line.repeat((1 << 27) / line.len() + 173));
         dirs[1].files[MANDATORY[2]] = Some("A long description.\n".repeat((1 << 22) / 20 + 2));
         dirs[1].files[0] = Some("OPSYS=NetBSD\n".repeat((1 << 20) / 13 + 2));
     }
@@ -441,7 +442,7 @@ pub fn run(cx: &mut Cx) {
     // (a2) one database with very many non-package entries (a walk whose
     // stack or time grows with the number of skipped entries shows here)
     if cx.mine(0) {
-        let (strays, incomplete) = cx.pick_tier((300usize, 20usize), (6_000, 300), (40_000, 600), (150_000, 3_000));
+        let (strays, incomplete) = cx.pick_tier((300usize, 20usize), (6_000, 300), (66_000, 600), (150_000, 3_000));
         let t = big_tree(strays, incomplete);
         let root = scratch.join("db-big");
         let will_run = cx.replay.map_or(true, |target| target == cx.idx + 1) && !cx.describe_only;
